@@ -1679,7 +1679,12 @@ namespace bloch::runtime {
             }
             obj->ownedQubits.clear();
         }
+        // Detach the fields before releasing them: releasing one may run another object's
+        // destructor, which can still reach this object (a destructor that stored 'this'
+        // somewhere) and must not find a half-destroyed slot.
+        std::vector<Value> dying = std::move(obj->fields);
         obj->fields.clear();
+        dying.clear();
     }
 
     void RuntimeEvaluator::runFieldInitialisers(RuntimeClass* cls,
